@@ -171,3 +171,14 @@ Lemma table_ante_nested_sound : forall g tx,
   forall top spec m, In top tx -> occurs (spec, m) top -> ms_has_meta spec = true ->
   exists sg, In sg (m_meta_signers m) /\ (sg = m_creator m \/ granted g (m_creator m) sg = true).
 Proof. rewrite decorator_loop_stateless_lemma. apply ante_nested_sound_lemma. Qed.
+
+(** * Seventh round *)
+Lemma decorator_has_no_memory_lemma : Gen.C03.decorator_extra_fields = [].
+Proof. reflexivity. Qed.
+
+(** A denom whose admin role was renounced (admin 0) never gets an admin again: principals are
+    positive ids, nobody signs as 0. *)
+Lemma renounced_stays_renounced_lemma : forall auth ops s d,
+  (forall op, In op ops -> signer auth op <> Some 0) ->
+  admin_of s d = Some 0 -> admin_of (orun Gen.C03.code_shape ops s) d = Some 0.
+Proof. intros auth ops s d H Had. exact (table_objects_history_admin auth ops s 0 H d Had). Qed.
